@@ -500,7 +500,10 @@ class CParser:
         self._tokens.reset(mark)
 
     def _tok_coord(self, tok: Token) -> Coord:
-        return self._coord(tok.lineno, tok.column)
+        # Use the file name recorded when the token was lexed: by the time a
+        # node is built, lookahead may already have crossed a #line directive.
+        filename = tok.filename if tok.filename is not None else self.clex.filename
+        return Coord(file=filename, line=tok.lineno, column=tok.column)
 
     def _starts_declaration(self, tok: Optional[Token] = None) -> bool:
         tok = tok or self._peek()
